@@ -315,11 +315,18 @@ impl LogState {
                     line = line[i..].to_string();
                 }
             }
-            // A "done" record without an exit status is not one of ours (a
-            // script printed something that looks like a record): plain output.
+            // A "done" record without an exit status, or a record about a
+            // target redo has never heard of, is not one of ours (a script
+            // printed something that looks like a record): plain output.
             let meta = Meta::parse(line.trim_end_matches('\n'))
                 .ok()
-                .filter(|g| g.kind() != "done" || g.done_text().is_some());
+                .filter(|g| match g.kind() {
+                    "done" => g.done_text().is_some(),
+                    "do" | "waiting" | "locked" | "unlocked" | "unchanged" => {
+                        is_known(ps, mydir, g.text())
+                    }
+                    _ => true,
+                });
             match meta {
                 Some(g) => {
                     let relname = rel(&topdir, mydir, g.text())?
@@ -496,6 +503,23 @@ fn format_thousands(n: u64) -> String {
             .collect(),
     )
     .unwrap()
+}
+
+/// Reports whether `name`, as written in a record of the log of a target in
+/// `mydir`, is a file redo has a record of.
+fn is_known(ps: &mut ProcessState, mydir: &RedoPath, name: &str) -> bool {
+    let t = match RedoPath::from_str(name) {
+        Ok(name) if !name.as_str().is_empty() => mydir.join(name),
+        _ => return false,
+    };
+    let mut ptx = match ProcessTransaction::new(ps, TransactionBehavior::Deferred) {
+        Ok(ptx) => ptx,
+        Err(_) => return true,
+    };
+    match redo::File::from_name(&mut ptx, &t, false) {
+        Err(e) => e.kind() != &RedoErrorKind::FileNotFound,
+        Ok(_) => true,
+    }
 }
 
 fn is_locked(ps: &ProcessState, fid: Option<i64>) -> Result<bool, Error> {
